@@ -120,7 +120,8 @@ CHECKS = {
         "reply, callback before/after}, cancellations while queued, inside send_data and while awaiting. Invariants over the "
         "log: one command in flight, start order by class then arrival, consecutive sequence bytes, each caller gets exactly "
         "the payload sent for its own request frame or TimeoutError inside the [request seen, request accepted]+10 s window "
-        "or the link exception, callbacks delivered to every registered callback exactly once, replies never leak, no slot leaked.",
+        "or the link exception, callbacks delivered exactly once to every callback registered at that instant (two permanent ones "
+        "and up to five transient listeners that are added and removed while traffic flows), replies never leak, no slot leaked.",
         "Conforming peer only (callbacks tagged with the last response's sequence); zigpy's priority semaphore trusted; "
         "same-instant ties between an arrival and a slot grant are not judged.",
         "Hypothesis schedule/fault plans on a virtual clock with a plan-driven peer; log invariants (history oracle)",
